@@ -26,6 +26,7 @@ def dispatch (j : Json) : Except String Json := do
   | "cc" => handleCC j
   | "cc_sql" => handleCCSql j
   | "multi_sql" => handleMultiSql j
+  | "gm_sql" => handleGMSql j
   | "multi" => handleMulti j
   | "block" => handleBlock j
   | "score" => handleScore j
